@@ -243,7 +243,7 @@ def run(ctx):
     ra = ctx.tlc('MC_PipelineS', ctx.pick('MC_PipelineS_HA.cfg', 'MC_PipelineS_HA2.cfg'), env=env, workers=4, timeout=ctx.pick(280, 1500), count=False)
     behaviours = list({digest(b): b for b in ra.json}.values())
     ctx.extra['spec_behaviours_exported'] = len(behaviours)
-    cap = ctx.pick(4000, 150000)
+    cap = ctx.pick(4000, 50000)
     if len(behaviours) > cap:
         rng.shuffle(behaviours)
         behaviours = behaviours[:cap]
@@ -253,7 +253,7 @@ def run(ctx):
                  timeout=ctx.pick(280, 1500), count=False)
     sessions = list({digest(b): b for b in rr.json}.values())
     ctx.extra['spec_sessions_exported'] = len(sessions)
-    cap = ctx.pick(2400, 60000)
+    cap = ctx.pick(2400, 30000)
     if len(sessions) > cap:
         rng.shuffle(sessions)
         sessions = sessions[:cap]
@@ -261,7 +261,7 @@ def run(ctx):
     rg = ctx.tlc('MC_PipelineS', ctx.pick('MC_PipelineS_G.cfg', 'MC_PipelineS_G2.cfg'), env=env, workers=4, timeout=600, count=False)
     hist = list({digest(b): b for b in rg.json}.values())
     ctx.extra['spec_registration_histories_exported'] = len(hist)
-    H.replay_behaviours(ctx, OWN, hist, both=True, seen_other=seen_other, label='leg A (registration histories)', rich=False)
+    H.replay_behaviours(ctx, OWN, hist, both=ctx.quick, seen_other=seen_other, label='leg A (registration histories)', rich=False)
     rs = ctx.tlc('MC_PipelineS', 'MC_PipelineS_HSim.cfg', env=env, simulate={'num': ctx.pick(120, 3000)}, depth=40,
                  seed=ctx.seed + 1, workers=4, timeout=600, count=False)
     deep = list({digest(b): b for b in rs.json}.values())
@@ -302,7 +302,7 @@ def run(ctx):
 
     # ---- leg B: random registries ------------------------------------------------------------------
     items = []
-    for k in range(ctx.pick(4000, 90000)):
+    for k in range(ctx.pick(4000, 60000)):
         regs = []
         for j in range(rng.randint(0, 6)):
             if regs and rng.random() < 0.3:         # the same handler object again, for another (often related) class
